@@ -10,5 +10,5 @@ reg(id="C01",
     rule="corpus (repo vectors) + directed set (45 messages x every slot x declared lengths {0,1,min-1,min,min+1,mid,max-1,max,max+1,cap,cap+1,255,256[,65535]} x truncation points) + structured random element sequences (reordered/duplicated/unknown identifiers) + malformed random + 256x256 (discriminator,type) grid at both offsets through the three entry points + inputs up to 70 000 octets at thorough; oracle: no panic, no hang, allocation <= 64*len+4096+3*65536; non-trivial = input that passes the header; distinct by input",
     trusted_base=CODEC_TB,
     assumptions=["nasMessage/*.go, nas.go, nas_generated.go, nasType shapes are re-translated on every run",
-                 "work/allocation bound: measured on the implementation by the harness (runtime.MemStats) against the stated bound; the Coq part proves totality and that every loop iteration consumes an octet"],
-    explanation="Theorems: every generated decoder is the generator template (canon_ok, kernel-evaluated on the fresh translation); for every well-formed definition and every byte string decode_def returns Ok or Err (no slice panic, fuel |bs|+1 never exhausted); same through GmmMessageDecode/GsmMessageDecode/PlainNasDecode. Correspondence + Go-side oracle on ~10^4 directed/random inputs.")
+                 "work/allocation bound: proved over the cost model Codec/Cost.v (what each template statement executes and allocates: 1 step per binary.Read/check/SetLen, 3 per loop iteration, the element struct per NewX, the requested octets per read even when the input is short); the cost model itself is hand-written and tied to the code by the template equality (canon_ok) plus the harness measuring runtime.MemStats.TotalAlloc per decode against 64*len+4096+3*65536"],
+    explanation="Theorems: every generated decoder is the generator template (canon_ok, kernel-evaluated on the fresh translation); for every well-formed definition and every byte string decode_def returns Ok or Err (no slice panic, fuel |bs|+1 never exhausted); same through GmmMessageDecode/GsmMessageDecode/PlainNasDecode; decode_cost_bound: steps <= 4|d|+8|bs|+1 and allocated octets <= (max_struct+3)|bs| + 2*(2*65536+2) + 2*max_struct for every definition passing cost_defb (checked on the fresh translation), with a witness that the 65535-octet term is reached. Correspondence + Go-side oracle on ~10^4 directed/random inputs.")
